@@ -66,6 +66,12 @@ func (w *binaryWriter) WriteNull() error {
 
 // WriteNullType writes a typed null.
 func (w *binaryWriter) WriteNullType(t Type) error {
+	if int(t) >= len(binaryNulls) {
+		if w.err == nil {
+			w.err = &UsageError{"Writer.WriteNullType", fmt.Sprintf("%d is not an Ion type", uint8(t))}
+		}
+		return w.err
+	}
 	return w.writeValue("Writer.WriteNullType", []byte{binaryNulls[t]})
 }
 
